@@ -54,8 +54,13 @@ fn show_tp(t: &Traceparent) -> String {
 
 type Ctx = TraceparentCtxt<emit::platform::thread_local_ctxt::ThreadLocalCtxt>;
 
-struct World {
-    ctxt: Ctx,
+/// what the streams need of the way the ctxt is held
+trait Held: emit::Ctxt + Sync {}
+impl<C: emit::Ctxt + Sync> Held for C {}
+
+struct World<C> {
+    ctxt: C,
+    has_sampler: bool,
     rng: CounterRng,
     log: Log,
     outside: bool,
@@ -63,26 +68,36 @@ struct World {
 }
 
 /// The runtime filter, wrapped so that the span's own ids and the verdict are recorded.
-struct RecFilter<'a>(&'a World);
-impl<'a> Filter for RecFilter<'a> {
+/// `TraceparentFilter` with the scripted sampler, or the sampler-less one
+fn tp_matches<C, E: emit::event::ToEvent>(w: &World<C>, evt: E) -> bool {
+    if w.has_sampler {
+        TraceparentFilter::new_with_sampler(|c: &SpanCtxt| (w.sampler)(c)).matches(evt)
+    } else {
+        TraceparentFilter::new().matches(evt)
+    }
+}
+
+struct RecFilter<'a, C>(&'a World<C>);
+impl<'a, C> Filter for RecFilter<'a, C> {
     fn matches<E: emit::event::ToEvent>(&self, evt: E) -> bool {
         let evt = evt.to_event();
-        let f = TraceparentFilter::new_with_sampler(|c: &SpanCtxt| (self.0.sampler)(c));
         let ids = ids_of_props(evt.props());
-        let v = f.matches(&evt);
+        let v = tp_matches(self.0, &evt);
         self.0.log.lock().unwrap().push(format!("(open {} {})", v, ids));
         v
     }
 }
 
-fn run_prog(w: &World, p: &Sexp) -> Option<()> {
+fn run_prog<C: Held>(w: &World<C>, p: &Sexp) -> Option<()>
+where
+    C::Frame: Send,
+{
     match p {
         Sexp::Atom(a) if a == "event" => {
             let cur = Traceparent::current();
             let ids = SpanCtxt::current(&w.ctxt);
             let evt = emit::Event::new(emit::Path::new_raw("c18"), emit::Template::literal("e"), emit::Empty, emit::Empty);
-            let f = TraceparentFilter::new_with_sampler(|c: &SpanCtxt| (w.sampler)(c));
-            let p1 = f.matches(&evt);
+            let p1 = tp_matches(w, &evt);
             let p2 = in_sampled_trace_filter(w.outside).matches(&evt);
             w.log.lock().unwrap().push(format!(
                 "(event {} ({} {} {}) {} {})",
@@ -233,48 +248,77 @@ fn run(line: &str) -> String {
     (|| -> Option<String> {
         let s = Sexp::parse(line)?;
         let (tag, a) = s.as_tagged()?;
-        if tag != "c18" || a.len() < 2 {
+        if tag != "c18" || a.len() < 4 {
             return None;
         }
-        let (dt, ds) = a[0].as_tagged()?;
+        let variant = a[0].as_atom()?.to_string();
+        let has_sampler = a[1].as_bool()?;
+        let (dt, ds) = a[2].as_tagged()?;
         if dt != "decisions" {
             return None;
         }
         let decisions: Vec<bool> = ds.iter().map(|d| d.as_bool()).collect::<Option<_>>()?;
-        let outside = a[1].as_bool()?;
-        let log: Log = Arc::new(Mutex::new(Vec::new()));
-        let calls = Arc::new(AtomicUsize::new(0));
-        let (log2, calls2) = (log.clone(), calls.clone());
-        let w = World {
-            ctxt: TraceparentCtxt::new(emit::platform::thread_local_ctxt::ThreadLocalCtxt::new()),
-            rng: CounterRng(AtomicU64::new(0)),
-            log: log.clone(),
-            outside,
-            sampler: Box::new(move |c: &SpanCtxt| {
-                let i = calls2.fetch_add(1, Ordering::SeqCst);
-                let d = decisions.get(i).copied().unwrap_or(false);
-                log2.lock().unwrap().push(format!("(sampler {} {} {})", tid(c.trace_id()), sid(c.span_id()), d));
-                d
-            }),
-        };
-        // every case runs on a fresh thread so that no active traceparent leaks in from a previous case
-        let out = std::thread::scope(|sc| {
-            sc.spawn(|| -> Option<String> {
-                for p in &a[2..] {
-                    run_prog(&w, p)?;
-                }
-                Some(show_tp(&Traceparent::current()))
-            })
-            .join()
-            .ok()
-            .flatten()
-        })?;
-        let n = calls.load(Ordering::SeqCst);
-        // the filter wrapper logs `open` after the sampler ran inside it; the model logs the sampler first too
-        let obs = log.lock().unwrap().join(" ");
-        Some(format!("{} calls={} cur={}", obs, n, out))
+        let outside = a[3].as_bool()?;
+        let progs = &a[4..];
+        let concrete: Ctx = TraceparentCtxt::new(emit::platform::thread_local_ctxt::ThreadLocalCtxt::new());
+        match variant.as_str() {
+            "concrete" => go(concrete, has_sampler, decisions, outside, progs),
+            "boxdyn" => {
+                let c: Box<dyn emit::ctxt::ErasedCtxt + Send + Sync> = Box::new(concrete);
+                go(c, has_sampler, decisions, outside, progs)
+            }
+            "arcdyn" => {
+                let c: Arc<dyn emit::ctxt::ErasedCtxt + Send + Sync> = Arc::new(concrete);
+                go(c, has_sampler, decisions, outside, progs)
+            }
+            "assert" => go(emit::runtime::AssertInternal(concrete), has_sampler, decisions, outside, progs),
+            "slot" => {
+                // the erased ctxt of an ambient runtime, as `emit_traceparent::setup().init()` installs it
+                let slot: &'static emit::runtime::AmbientSlot = Box::leak(Box::new(emit::runtime::AmbientSlot::new()));
+                let _init = emit::setup().with_ctxt(concrete).init_slot(slot);
+                go(slot.get().ctxt(), has_sampler, decisions, outside, progs)
+            }
+            _ => None,
+        }
     })()
     .unwrap_or_else(|| "bad-case".into())
+}
+
+fn go<C: Held>(ctxt: C, has_sampler: bool, decisions: Vec<bool>, outside: bool, progs: &[Sexp]) -> Option<String>
+where
+    C::Frame: Send,
+{
+    let log: Log = Arc::new(Mutex::new(Vec::new()));
+    let calls = Arc::new(AtomicUsize::new(0));
+    let (log2, calls2) = (log.clone(), calls.clone());
+    let w = World {
+        ctxt,
+        has_sampler,
+        rng: CounterRng(AtomicU64::new(0)),
+        log: log.clone(),
+        outside,
+        sampler: Box::new(move |c: &SpanCtxt| {
+            let i = calls2.fetch_add(1, Ordering::SeqCst);
+            let d = decisions.get(i).copied().unwrap_or(false);
+            log2.lock().unwrap().push(format!("(sampler {} {} {})", tid(c.trace_id()), sid(c.span_id()), d));
+            d
+        }),
+    };
+    // every case runs on a fresh thread so that no active traceparent leaks in from a previous case
+    let out = std::thread::scope(|sc| {
+        sc.spawn(|| -> Option<String> {
+            for p in progs {
+                run_prog(&w, p)?;
+            }
+            Some(show_tp(&Traceparent::current()))
+        })
+        .join()
+        .ok()
+        .flatten()
+    })?;
+    let n = calls.load(Ordering::SeqCst);
+    let obs = log.lock().unwrap().join(" ");
+    Some(format!("{} calls={} cur={}", obs, n, out))
 }
 
 // ------------------------------------------------------------------ generator
@@ -311,7 +355,8 @@ fn gen(rng: &mut Rng, tier: Tier, n: usize) -> Vec<String> {
             let ds = (0..nd).map(|_| Sexp::bool(rng.chance(3, 5))).collect();
             let mut budget = 1 + rng.usize(size);
             let top = 1 + rng.usize(3);
-            let mut v = vec![Sexp::tagged("decisions", ds), Sexp::bool(rng.bool())];
+            let variant = *rng.pick(&["concrete", "concrete", "boxdyn", "arcdyn", "assert", "slot"]);
+            let mut v = vec![Sexp::atom(variant), Sexp::bool(rng.chance(3, 4)), Sexp::tagged("decisions", ds), Sexp::bool(rng.bool())];
             for _ in 0..top {
                 v.push(gen_prog(rng, depth, &mut budget));
             }
